@@ -127,7 +127,7 @@ def tmpl(name):
 
 # ----------------------------------------------------------------------------------------------- one case
 class Case:
-    def __init__(self, names, stop='eof', cut=None, mode='transaction', cache=0, roles=(0,), paused=None, sym_status=False, plugins=False, shards=None, custom=False, params=None):
+    def __init__(self, names, stop='eof', cut=None, mode='transaction', cache=0, roles=(0,), paused=None, sym_status=False, plugins=False, shards=None, custom=False, params=None, second=None, second_params=None):
         self.names = list(names)
         self.stop = stop              # 'eof' | 'X'
         self.cut = cut                # None or number of bytes of the LAST message delivered before EOF
@@ -137,6 +137,8 @@ class Case:
         self.paused = paused          # None | 'start' | ('after', k): PAUSE arrives while the client is idle before message k
         self.sym_status = sym_status
         self.shards = shards          # None or list of role tuples, one per shard (overrides `roles`)
+        self.second = second          # None or the script (names) of a second client that connects after the first one has gone
+        self.second_params = second_params
         self.params = params          # None or dict: the client's startup values of tracked parameters (the servers start with the defaults)
         self.custom = custom          # the script contains pooler commands (SET SHARD ...): routing reference is evaluated
         self.plugins = plugins        # query parser on; the plugin verdict for every parsed statement is symbolic (allow / deny / intercept)
@@ -148,6 +150,7 @@ class Case:
         s += '' if len(self.roles) == 1 else '/%dbackends' % len(self.roles)
         s += '/symstatus' if self.sym_status else ''
         s += '' if self.paused is None else '/paused:%s' % (self.paused,)
+        s += '' if not self.second else '/then:%s%s' % ('+'.join(self.second), '' if not self.second_params else sorted(self.second_params.items()))
         s += '' if not self.params else '/params:%s' % (sorted(self.params.items()),)
         s += '' if not self.shards else '/shards:%s' % (self.shards,)
         s += ('/plugins' if self.plugins is True else '/plugins:%s' % self.plugins) if self.plugins else ''
@@ -188,8 +191,6 @@ def run_case(chk, ob, ip, prog, case, props, extra_judge=None):
             client_over['server_parameters'] = mk_server_params(prog, vals)
         if case.cache:
             client_over['prepared_statements_enabled'] = BV(1, 1)
-            for b in flat:
-                setf(prog, b.server, 'Server', 'prepared_statement_cache', some(ip_, lru([], case.cache)))
             pool_over['prepared_statement_cache'] = some(ip_, Ptr(Cell(Agg([mk_struct(prog, 'PreparedStatementCache', cache=lru([], case.cache))], 'Lock'), 'pscache')))
         pend, on_pending = (), None
         if isinstance(case.paused, tuple):
@@ -219,6 +220,12 @@ def run_case(chk, ob, ip, prog, case, props, extra_judge=None):
         env = HE.HandleEnv(ip_, prog, bks, sent, client_over=client_over, pool_over=pool_over, paused=(case.paused in ('start', 'start-resume')),
                            pending_at=pend, on_pending=on_pending, settings_over=settings_over,
                            boundaries=[sum(len(mm) for mm in msgs[:k]) for k in range(len(msgs) + 1)])
+        if case.cache:
+            def give_cache(b):
+                setf(prog, b.server, 'Server', 'prepared_statement_cache', some(ip_, lru([], case.cache)))
+            env.server_setup.append(give_cache)
+            for b in flat:
+                give_cache(b)
         verdicts = {}
         if case.plugins:
             env.plugin_verdicts = case.plugins
@@ -336,6 +343,48 @@ def run_case(chk, ob, ip, prog, case, props, extra_judge=None):
                                                       dict(case.params) if case.params is not None else None]})
         if len(ob.samples) < 2:
             ob.samples.append({'script': case.label(), 'outcome': str(data['outcome']), 'events': [str(e) for e in env.events][:8]})
+        if case.second and data['outcome'][0] == 'done':
+            second_session(ip_, env, case, sent, msgs)
+
+    def second_session(ip_, env, case, sent1, msgs1):
+        """The next client: its own requests and replies, its own parameters and statement names, on the connections the first left."""
+        msgs2 = [tmpl(n).build(ip_, 100 + k) for k, n in enumerate(case.second)] + [[BV(8, b) for b in X]]
+        sent2 = [b for m in msgs2 for b in m]
+        co = {}
+        if case.mode == 'session':
+            co['transaction_mode'] = BV(1, 0)
+        if case.cache:
+            co['prepared_statements_enabled'] = BV(1, 1)
+        p2 = dict(case.second_params or {})
+        vals = {k: v.decode('latin1') for k, v in HE.PARAM_DEFAULTS.items()}
+        vals.update(p2)
+        co['server_parameters'] = mk_server_params(prog, vals)
+        env.next_session(sent2, boundaries=[sum(len(mm) for mm in msgs2[:k]) for k in range(len(msgs2) + 1)], client_over=co)
+        env.run()
+        data2 = HE.collect(env, 1)
+        dec = HE.Decider(ip_)
+        V = HE.judge(data2, msgs2, dec, cache_on=bool(case.cache), idle_rule=(case.mode == 'transaction'))
+        V += c12_reference(data2, msgs2, dec, p2)
+        if case.cache and 'C08' in props:
+            try:
+                V += c08_reference(data2, msgs2, dec, case.cache)
+            except ValueError:
+                pass
+        for prop, key, text in V:
+            if prop not in props:
+                continue
+            m = ip_.model_for()
+            hex1 = bytes(model_byte(m, b) for b in sent1).hex()
+            hex2 = bytes(model_byte(m, b) for b in sent2).hex()
+            cmd = {'op': 'handle_script', 'client_hex': hex1, 'eof': True, 'mode': case.mode, 'cache': case.cache,
+                   'roles': ['primary' if r == 0 else 'replica' for r in case.roles], 'b_hex': hex2}
+            if case.params is not None:
+                cmd['startup_params'] = dict(case.params)
+            if p2:
+                cmd['b_startup_params'] = p2
+            chk.report(ob, '%s/%s' % (prop, key + '/second-client'), '%s [second client of %s]' % (text, case.label()),
+                       {'script': case.label(), 'first_client_hex': hex1, 'second_client_hex': hex2},
+                       {'commands': [cmd], 'expect': ['h_violation2', prop, key, (case.cache if prop == 'C08' else bool(case.cache)), hex2, p2]})
     ip.explore(harness, max_paths=4000)
 
 
@@ -600,6 +649,29 @@ def effective_script(script, verdicts, cache_on=False):
     return eff, denied
 
 
+@expectation('h_violation2')
+def h_violation2(prop, key, cache_on, hex2, params2):
+    """Native confirmation for the SECOND client of a two-client case: the same reference evaluated on what client B and the
+    backends observed after client A had gone."""
+    def f(res):
+        r = res[0]
+        if 'error' in r or 'panic' in r:
+            return False, 'native: %r' % (r,)
+        data = HE.collect_native(r, session=1)
+        script, _rest = HE.split_messages(HE.bvs(hex2), 'second client script')
+        dec = HE.Decider(None)
+        V = HE.judge(data, script, dec, cache_on=bool(cache_on), expect_incomplete=True)
+        V += c12_reference(data, script, dec, params2 or {})
+        if cache_on and prop == 'C08':
+            try:
+                V += c08_reference(data, script, dec, cache_on if not isinstance(cache_on, bool) else None)
+            except ValueError:
+                pass
+        hit = [v for v in V if v[0] == prop and v[1] == key]
+        return bool(hit), 'native run: second client state=%s, violations=%s' % (r.get('b_state'), sorted(set((v[0], v[1]) for v in V)))
+    return f
+
+
 def c12_reference(data, script, dec, startup):
     """Before any statement of the client runs on a server connection, that connection's tracked parameters (client_encoding,
     DateStyle, TimeZone, standard_conforming_strings, application_name) equal what the client established: its startup values, then
@@ -671,7 +743,9 @@ def c08_reference(data, script, dec, cache_size=None):
                 valid = False
         elif c == b'E':
             sql = stmts.get(portals.get(body.split(b'\0', 1)[0]))
-            if sql is None or not sql.upper().startswith(b'SELECT') or b'1/0' in sql:
+            if sql is None:
+                continue        # (an Execute of a statement this client never prepared: see `valid`)
+            if not sql.upper().startswith(b'SELECT') or b'1/0' in sql:
                 return V        # alignment of rows is only decided for plain SELECTs
             expected.append(sql)
         elif c == b'C' and body[:1] == b'S':
@@ -690,6 +764,8 @@ def c08_reference(data, script, dec, cache_size=None):
             continue
         if cm[:1] == b'D' and len(cm) == 5 + 2 + 4 + 8:
             rows.append(cm[-2:])
+    if not valid and rows and not expected:
+        V.append(('C08', 'H/foreign-statement-executed', 'the client bound a statement name it never prepared and got a result row: a statement of another client was executed for it'))
         if cm[:1] == b'E' and b'C26000' in cm and b'VFATAL' not in cm and valid:
             # classified by input class: one batch that uses more distinct named statements than the server-side cache holds
             cls = 'batch-exceeds-cache' if (cache_size is not None and widest > cache_size) else 'other'
